@@ -1428,7 +1428,7 @@ pub enum Mutation {
 /// attributes html2text looks at
 pub const ATTR_NAMES: &[&str] = &["color", "bgcolor", "colspan", "start", "href", "src", "alt", "id", "name", "class", "style", "rowspan"];
 /// alphabet of generated attribute values: digits, hex letters, signs, separators, 2-, 3- and 4-byte characters
-pub const ATTR_ALPHABET: &[&str] = &["0", "1", "9", "a", "f", "F", "z", "#", "-", "+", " ", ";", ":", "%", ".", "\u{e9}", "\u{4e2d}", "\u{1F600}", "\u{301}", "&#10;", "(", ")", ","];
+pub const ATTR_ALPHABET: &[&str] = &["0", "1", "9", "a", "f", "F", "z", "#", "-", "+", " ", ";", ":", "%", ".", "\u{e9}", "\u{4e2d}", "\u{1F600}", "\u{301}", "&#10;", "(", ")", ",", "\u{80}", "\u{a0}", "\u{7f}", "&#128;", "\u{3000}", "\u{feff}", "r", "e", "d"];
 
 pub fn attr_text(name: u8, val: &[u8]) -> String {
     let mut s = format!(" {}=\"", ATTR_NAMES[name as usize % ATTR_NAMES.len()]);
